@@ -103,6 +103,7 @@ def mkjob(rng, spec, net, mode):
     return (name, nw, prog, mode, ins, 'netlist %s %d %d %d %s %s' % (spec, mode, nw, len(prog), ' '.join('%d %d %d %d %d' % p for p in prog), fmt(ins)))
 
 def run(ctx):
+    import os; os.environ['MALLOC_PERTURB_'] = '165'     # every block the harness processes get from or return to the allocator is filled: memory that a routine never wrote does not look like zeros by luck
     thorough = ctx.tier == 'thorough'
     rng = ctx.rng
     ctx.rule = ('random and structured netlists (random with 30%% in-place destinations, in-place chains of depth up to %s, NOT chains, trees, heavy fan-out, ripple adders, multiplexer trees) evaluated with the '
